@@ -72,6 +72,25 @@ fn run_entry(entry: &str, input: &[u8]) -> Option<bool> {
             any |= header::ReplyTo::parse(&t).is_ok();
             any
         }
+        // the blocking and the tokio sendmail transport against a program that fails with the input as its diagnostics
+        "sendmailerr" => {
+            use lettre::{AsyncSendmailTransport, AsyncTransport, SendmailTransport, Tokio1Executor, Transport};
+            use std::os::unix::fs::PermissionsExt;
+            static N: std::sync::atomic::AtomicUsize = std::sync::atomic::AtomicUsize::new(0);
+            let d = std::env::temp_dir().join(format!("lvh-c19-{}-{}", std::process::id(), N.fetch_add(1, std::sync::atomic::Ordering::SeqCst)));
+            std::fs::create_dir_all(&d).ok()?;
+            let diag = d.join("diag");
+            std::fs::write(&diag, input).ok()?;
+            let script = d.join("sendmail.sh");
+            std::fs::write(&script, format!("#!/bin/sh\ncat > /dev/null\ncat '{}' >&2\nexit 3\n", diag.display())).ok()?;
+            std::fs::set_permissions(&script, std::fs::Permissions::from_mode(0o755)).ok()?;
+            let env = lettre::address::Envelope::new(Some("a@b.c".parse().ok()?), vec!["x@y.z".parse().ok()?]).ok()?;
+            let r1 = SendmailTransport::new_with_command(&script).send_raw(&env, b"m\r\n");
+            let rt = tokio::runtime::Builder::new_current_thread().enable_all().build().ok()?;
+            let r2 = rt.block_on(AsyncSendmailTransport::<Tokio1Executor>::new_with_command(&script).send_raw(&env, b"m\r\n"));
+            let _ = std::fs::remove_dir_all(&d);
+            r1.is_ok() || r2.is_ok()
+        }
         "url" => lettre::SmtpTransport::from_url(&text()).is_ok(),
         "aurl" => lettre::AsyncSmtpTransport::<lettre::Tokio1Executor>::from_url(&text()).is_ok(),
         "resp" => text().parse::<lettre::transport::smtp::response::Response>().is_ok(),
